@@ -61,11 +61,15 @@ impl Database {
                         .node_rank
                         .cmp(&path_a.node_rank)
                         .then_with(|| path_a.search_text.len().cmp(&path_b.search_text.len()))
+                        .then_with(|| path_a.key.cmp(&path_b.key))
+                        .then_with(|| path_a.search_text.cmp(&path_b.search_text))
                 } else {
                     rank_b
                         .cmp(&rank_a)
                         .then_with(|| path_a.search_text.len().cmp(&path_b.search_text.len()))
                         .then_with(|| path_b.node_rank.cmp(&path_a.node_rank))
+                        .then_with(|| path_a.key.cmp(&path_b.key))
+                        .then_with(|| path_a.search_text.cmp(&path_b.search_text))
                 }
             })
             .map(|(path, _)| path)
